@@ -27,7 +27,20 @@ const validateRoot = "/tmp/cdi-verif-validate"
 type docGen struct{ rng *rand.Rand }
 
 func (g docGen) pick(l ...string) string { return l[g.rng.Intn(len(l))] }
-func (g docGen) maybe(p int) bool         { return g.rng.Intn(100) < p }
+func (g docGen) maybe(p int) bool        { return g.rng.Intn(100) < p }
+
+// free draws a string of length lo..hi over an alphabet: the library puts no constraint on most
+// strings, so the well-formed stream must not stay inside a handful of literals
+func (g docGen) free(alphabet string, lo, hi int) string {
+	n := lo + g.rng.Intn(hi-lo+1)
+	b := make([]byte, n)
+	for i := range b {
+		b[i] = alphabet[g.rng.Intn(len(alphabet))]
+	}
+	return string(b)
+}
+
+const freeText = "abcxyzABC0189-_./:=,+@ "
 
 func strs(l ...string) jarr {
 	out := jarr{}
@@ -39,8 +52,11 @@ func strs(l ...string) jarr {
 
 func (g docGen) node() *jobj {
 	o := obj("path", jstr(g.pick("/dev/null", "/dev/x0", "/dev/dri/card0")))
+	if g.maybe(25) {
+		o.set("path", jstr(g.free(freeText, 1, 40)))
+	}
 	if g.maybe(30) {
-		o.set("hostPath", jstr("/dev/host0"))
+		o.set("hostPath", jstr(g.pick("/dev/host0", g.free(freeText, 0, 30))))
 	}
 	if g.maybe(60) {
 		o.set("type", jstr(g.pick("b", "c", "u", "p")))
@@ -55,8 +71,11 @@ func (g docGen) node() *jobj {
 	if g.maybe(30) {
 		o.set("fileMode", jint(int64(g.rng.Intn(0o1000))))
 	}
+	if g.maybe(8) {
+		o.set("fileMode", jbig(g.pick("0", "4095", "65535", "2147483648", "4294967295")))
+	}
 	if g.maybe(40) {
-		o.set("permissions", jstr(g.pick("r", "rw", "rwm", "m", "", "rrw")))
+		o.set("permissions", jstr(g.pick("r", "rw", "rwm", "m", "", "rrw", g.free("rwm", 0, 8), g.free("rwm", 4, 12))))
 	}
 	if g.maybe(30) {
 		o.set("uid", jint(int64(g.rng.Intn(70000))))
@@ -66,27 +85,36 @@ func (g docGen) node() *jobj {
 }
 
 func (g docGen) mount() *jobj {
-	o := obj("hostPath", jstr("/host/lib"), "containerPath", jstr(g.pick("/usr/lib", "/a/b/c", "/x")))
+	o := obj("hostPath", jstr(g.pick("/host/lib", g.free(freeText, 1, 30))), "containerPath", jstr(g.pick("/usr/lib", "/a/b/c", "/x", g.free(freeText, 1, 30))))
 	if g.maybe(50) {
 		o.set("options", strs("ro", "nosuid", "bind"))
 	}
+	if g.maybe(15) {
+		o.set("options", strs(g.free(freeText, 0, 12), g.free(freeText, 0, 12)))
+	}
 	if g.maybe(30) {
-		o.set("type", jstr(g.pick("bind", "tmpfs")))
+		o.set("type", jstr(g.pick("bind", "tmpfs", g.free(freeText, 0, 12))))
 	}
 	return o
 }
 
 func (g docGen) hook() *jobj {
 	o := obj("hookName", jstr(g.pick("prestart", "createRuntime", "createContainer", "startContainer", "poststart", "poststop")),
-		"path", jstr("/usr/bin/hook"))
+		"path", jstr(g.pick("/usr/bin/hook", g.free(freeText, 1, 30))))
 	if g.maybe(50) {
 		o.set("args", strs("hook", "--flag"))
 	}
+	if g.maybe(15) {
+		o.set("args", strs(g.free(freeText, 0, 20), "", g.free(freeText, 0, 20)))
+	}
 	if g.maybe(40) {
-		o.set("env", strs("A=b", "C="))
+		o.set("env", strs("A=b", "C=", "D="+g.free(freeText, 0, 20)))
 	}
 	if g.maybe(30) {
 		o.set("timeout", jint(int64(g.rng.Intn(100))))
+	}
+	if g.maybe(8) {
+		o.set("timeout", jbig(g.pick("0", "-1", "9223372036854775807", "-9223372036854775808")))
 	}
 	return o
 }
@@ -94,7 +122,7 @@ func (g docGen) hook() *jobj {
 func (g docGen) edits(nonEmpty bool) *jobj {
 	o := obj()
 	if g.maybe(60) || nonEmpty {
-		o.set("env", strs("FOO=bar", g.pick("X=", "Y=a=b", "Z_1=2")))
+		o.set("env", strs("FOO=bar", g.pick("X=", "Y=a=b", "Z_1=2", g.free("abcXYZ_019", 1, 12)+"="+g.free(freeText, 0, 30))))
 	}
 	if g.maybe(50) {
 		l := jarr{}
@@ -118,9 +146,9 @@ func (g docGen) edits(nonEmpty bool) *jobj {
 		o.set("mounts", l)
 	}
 	if g.maybe(25) {
-		r := obj("closID", jstr(g.pick("cls0", "a.b", "", "...")))
+		r := obj("closID", jstr(g.pick("cls0", "a.b", "", "...", g.free("abcXYZ019-_.", 0, 20))))
 		if g.maybe(50) {
-			r.set("l3CacheSchema", jstr("L3:0=ff"))
+			r.set("l3CacheSchema", jstr(g.pick("L3:0=ff", g.free(freeText, 0, 20))))
 			r.set("enableCMT", true)
 		}
 		o.set("intelRdt", r)
@@ -134,7 +162,7 @@ func (g docGen) edits(nonEmpty bool) *jobj {
 func (g docGen) annotations() *jobj {
 	o := obj()
 	for i := 0; i <= g.rng.Intn(2); i++ {
-		o.set(g.pick("vendor.com/key", "simple", "a.b-c_d", "Example.COM/Key_1", "x/y"), jstr(g.pick("v", "", "some value")))
+		o.set(g.pick("vendor.com/key", "simple", "a.b-c_d", "Example.COM/Key_1", "x/y"), jstr(g.pick("v", "", "some value", g.free(freeText, 0, 60))))
 	}
 	return o
 }
